@@ -97,7 +97,8 @@ def handle (toks : List String) (impl : String) : Verdict :=
       -- the base64 crate is more lenient/strict than a canonical decoder only in corner cases that are
       -- not part of the property; the oracle checks soundness: whatever is decoded re-encodes to the text
       { oracle :=
-          if impl.startsWith "ok " then
+          if impl.startsWith "panic" then some "decoding Base64 text panicked"
+          else if impl.startsWith "ok " then
             match hexB (impl.drop 3).toString with
             | some d => if b64Encode d = skipWs t then none else some "decoded data does not re-encode to the (whitespace-free) text"
             | none => some "unreadable"
